@@ -42,9 +42,9 @@ fn main() {
             "sbf-case" | "sbf-law" => props::c0910::replay_sbf(&v["case"]),
             "arr-case" | "arr-far" => props::c0910::replay_arr(&v["case"]),
             "steps-arr" | "steps-rb" | "steps-arr-far" => props::c11::replay(&kind, &v["case"]),
-            "derived" | "trace" | "dual" => props::c12::replay(&kind, &v["case"]),
-            "ext" | "hist" => props::c13::replay(&kind, &v["case"], v["key"].as_str().unwrap_or("")),
-            "cost" | "cost-trace" | "cost-ext" | "cost-hist" | "cost-iter" => props::c14::replay(&kind, &v["case"], v["key"].as_str().unwrap_or("")),
+            "derived" | "derived-far" | "trace" | "dual" => props::c12::replay(&kind, &v["case"]),
+            "ext" | "hist" | "ext-long" | "steps-long" => props::c13::replay(&kind, &v["case"], v["key"].as_str().unwrap_or("")),
+            "cost" | "cost-trace" | "cost-ext" | "cost-hist" | "cost-iter" | "cost-far" => props::c14::replay(&kind, &v["case"], v["key"].as_str().unwrap_or("")),
             "poisson" | "poisson-pmf" | "poisson-approx" => props::c15::replay(&kind, &v["case"]),
             "rb-compose" | "rb-many" => props::c16::replay(&v["case"]),
             "harden" | "agree" => props::c1719::replay(&kind, &v["case"]),
